@@ -8,7 +8,7 @@
    generated bodies goes through the checked accessor nth_chk, which yields Panic out of range
    (Example nth_chk_panics), so these statements are about the code's index expressions. *)
 From Coq Require Import String.
-From Verif Require Import Lib.Base Lib.Sx Lib.GoSem Model.Total Proofs.Total.
+From Verif Require Import Lib.Base Lib.Sx Lib.GoSem Model.Total Proofs.Total Proofs.TotalSem.
 From Verif Require Import Gen.Gen_amf0 Gen.Gen_rtmp Gen.Gen_flv Gen.Gen_aac Gen.Gen_avc Gen.Gen_websocket.
 Open Scope Z_scope.
 
@@ -123,38 +123,206 @@ Theorem c07_rtmp_UserControl_Size_values : forall v, 0 <= v < 2 ^ 16 ->
   exists n, rtmp_UserControl_Size v = Ok n /\ (n = 3 \/ n = 6 \/ n = 10).
 Proof. exact rtmp_UserControl_Size_values. Qed.
 
-Print Assumptions c07_amf0_marker_String_total.
-Print Assumptions c07_amf0_Discovery_total.
-Print Assumptions c07_rtmp_UserControl_Size_total.
-Print Assumptions c07_rtmp_SetChunkSize_Size_total.
-Print Assumptions c07_rtmp_WindowAcknowledgementSize_Size_total.
-Print Assumptions c07_rtmp_SetPeerBandwidth_Size_total.
-Print Assumptions c07_flv_TagType_String_total.
-Print Assumptions c07_flv_AudioChannels_String_total.
-Print Assumptions c07_flv_AudioSampleBits_String_total.
-Print Assumptions c07_flv_AudioSamplingRate_String_total.
-Print Assumptions c07_flv_AudioCodec_String_total.
-Print Assumptions c07_flv_VideoFrameType_String_total.
-Print Assumptions c07_flv_VideoCodec_String_total.
-Print Assumptions c07_flv_VideoFrameTrait_String_total.
-Print Assumptions c07_flv_AudioSamplingRate_ToHz_total.
-Print Assumptions c07_flv_AudioSamplingRate_OpusToHz_total.
-Print Assumptions c07_flv_AudioSamplingRate_From_total.
-Print Assumptions c07_flv_AudioSamplingRate_OpusFrom_total.
-Print Assumptions c07_flv_AudioChannels_From_total.
-Print Assumptions c07_aac_ObjectType_String_total.
-Print Assumptions c07_aac_ObjectType_ToProfile_total.
-Print Assumptions c07_aac_Profile_String_total.
-Print Assumptions c07_aac_Profile_ToObjectType_total.
-Print Assumptions c07_aac_SampleRateIndex_String_total.
-Print Assumptions c07_aac_SampleRateIndex_ToHz_total.
-Print Assumptions c07_aac_Channels_String_total.
-Print Assumptions c07_avc_NALUType_String_total.
-Print Assumptions c07_avc_AVCProfile_String_total.
-Print Assumptions c07_avc_AVCLevel_String_total.
-Print Assumptions c07_websocket_isControl_total.
-Print Assumptions c07_websocket_isData_total.
-Print Assumptions c07_websocket_isValidReceivedCloseCode_total.
-Print Assumptions c07_websocket_isValidCompressionLevel_total.
-Print Assumptions c07_amf0_Discovery_markers.
-Print Assumptions c07_rtmp_UserControl_Size_values.
+(* The semantics the generated bodies are written in (Lib/GoSem.v) is Go's: an index expression
+   panics exactly when the index is negative or not below the length, and yields the element
+   otherwise; the fixed-width wraps land in the type's range and are the identity inside it. *)
+Theorem c07_index_panics_iff : forall l i, nth_chk l i = Panic site_index <-> (i < 0 \/ len_Z l <= i).
+Proof. exact nth_chk_panics_iff. Qed.
+Theorem c07_index_in_range : forall l i, 0 <= i < len_Z l ->
+  exists x, nth_chk l i = Ok x /\ nth_error l (Z.to_nat i) = Some x.
+Proof. exact nth_chk_in_range. Qed.
+Theorem c07_wrap_unsigned : forall w x, 0 <= w ->
+  0 <= wrap_u w x < 2 ^ w /\ (0 <= x < 2 ^ w -> wrap_u w x = x).
+Proof. intros w x Hw. split; [exact (wrap_u_range w x Hw)|exact (wrap_u_id w x)]. Qed.
+Theorem c07_wrap_signed : forall w x, 1 <= w ->
+  - 2 ^ (w - 1) <= wrap_s w x < 2 ^ (w - 1) /\ (- 2 ^ (w - 1) <= x < 2 ^ (w - 1) -> wrap_s w x = x).
+Proof. intros w x Hw. split; [exact (wrap_s_range w x Hw)|exact (wrap_s_id w x Hw)]. Qed.
+
+(* ------------------------------------------------------------------------------------------
+   Part 2: decoder totality.  The executable decoder models live in the Model files of the
+   properties that own them; their `never Panic` theorems are restated here.  [wf_bytes] says
+   every list element is < 256 (all a byte string can contain); fuel parameters are universally
+   quantified, and out-of-fuel is an ordinary error excluded where the statement says so.
+   Part 3 (last theorem): the linear-time clause, refuted for AMF0.
+   ------------------------------------------------------------------------------------------ *)
+
+From Verif Require Proofs.Amf0 Proofs.RtmpChunk Proofs.RtmpPacket Proofs.FlvTotal Proofs.FlvPack Proofs.Aac Proofs.Avc Proofs.JsonPlusTotal Proofs.JoseFixed Proofs.JoseCipher Proofs.JoseWrap Proofs.Amf0Cost.
+
+(* AMF0: Discovery + UnmarshalBinary of every value type, every nesting, every byte string (any fuel) *)
+Theorem c07_amf0_dec_total :
+    forall (fuel : nat) (p : bytes), wf_bytes p -> forall s : N, Amf0.dec fuel p <> Panic s.
+Proof. exact Verif.Proofs.Amf0.amf0_dec_total. Qed.
+
+(* RTMP chunk reader: ReadMessage from every reachable reader state on every input *)
+Theorem c07_rtmp_read_total :
+    forall (fuel : nat) (s : RtmpChunk.rstate) (i : RtmpChunk.inp) (p : N),
+    RtmpChunk.rs_ok s -> RtmpChunk.read_message fuel s i <> Panic p.
+Proof. exact Verif.Proofs.RtmpChunk.rtmp_read_total. Qed.
+
+(* RTMP DecodeMessage (message type dispatch, AMF0 command name and transaction lookup, packet decoder) for every transaction table, type and payload *)
+Theorem c07_rtmp_decode_message_total :
+    forall (t : RtmpPacket.tx) (mt : N) (payload : bytes),
+    RtmpPacket.np (fst (RtmpPacket.decode_message t mt payload)).
+Proof. exact Verif.Proofs.RtmpPacket.decode_message_total. Qed.
+
+(* every RTMP packet decoder (UnmarshalBinary) on every byte string *)
+Theorem c07_rtmp_unmarshal_total :
+    forall (r : RtmpPacket.pkt) (data : bytes), RtmpPacket.np (RtmpPacket.unmarshal r data).
+Proof. exact Verif.Proofs.RtmpPacket.unmarshal_total. Qed.
+
+(* FLV demuxer: header, tag headers and tags of every stream *)
+Theorem c07_flv_demux_total :
+    forall (fuel : nat) (s : Flv.stream) (x : N), FlvTotal.wf_stream s -> Flv.demux fuel s <> Panic x.
+Proof. exact Verif.Proofs.FlvTotal.flv_demux_total. Qed.
+
+(* FLV audio packager Decode *)
+Theorem c07_flv_audio_dec_total :
+    forall (bs : bytes) (x : N), wf_bytes bs -> Flv.audio_dec bs <> Panic x.
+Proof. exact Verif.Proofs.FlvPack.flv_audio_dec_total. Qed.
+
+(* FLV video packager Decode *)
+Theorem c07_flv_video_dec_total :
+    forall (bs : bytes) (x : N), wf_bytes bs -> Flv.video_dec bs <> Panic x.
+Proof. exact Verif.Proofs.FlvPack.flv_video_dec_total. Qed.
+
+(* ADTS Decode from every codec state *)
+Theorem c07_aac_adts_dec_total :
+    forall (st : Aac.asc) (data : bytes) (s : N), snd (Aac.adts_decode st data) <> Panic s.
+Proof. exact Verif.Proofs.Aac.adts_decode_total. Qed.
+
+(* ADTS Decode repeated over the remainder *)
+Theorem c07_aac_adts_stream_total :
+    forall (fuel : nat) (st : Aac.asc) (data : bytes) (acc : list (bytes * Aac.asc)) (s : N),
+    snd (Aac.adts_stream fuel st data acc) <> Panic s.
+Proof. exact Verif.Proofs.Aac.adts_stream_total. Qed.
+
+(* AudioSpecificConfig.UnmarshalBinary *)
+Theorem c07_aac_asc_dec_total :
+    forall (st : Aac.asc) (data : bytes) (s : N), snd (Aac.asc_unmarshal st data) <> Panic s.
+Proof. exact Verif.Proofs.Aac.asc_unmarshal_total. Qed.
+
+(* AVCDecoderConfigurationRecord.UnmarshalBinary *)
+Theorem c07_avc_record_dec_total :
+    forall (st : Avc.avcrec) (data : bytes) (s : N), snd (Avc.rec_unmarshal st data) <> Panic s.
+Proof. exact Verif.Proofs.Avc.rec_unmarshal_total. Qed.
+
+(* AVCSample.UnmarshalBinary for every length size *)
+Theorem c07_avc_sample_dec_total :
+    forall (lsm1 : N) (have : list Avc.nalu) (data : bytes) (s : N),
+    snd (Avc.sample_unmarshal lsm1 have data) <> Panic s.
+Proof. exact Verif.Proofs.Avc.sample_unmarshal_total. Qed.
+
+(* NALU.UnmarshalBinary *)
+Theorem c07_avc_nalu_dec_total :
+    forall (data : bytes) (s : N), Avc.nalu_unmarshal data <> Panic s.
+Proof. exact Verif.Proofs.Avc.nalu_total. Qed.
+
+(* JSON+ reader over every segmentation of the input: no panic and never out of fuel (it always returns) *)
+Theorem c07_jsonplus_total :
+    forall (segs : list bytes) (fin : N) (dt : bool),
+    fin <> JsonPlus.E_FUEL ->
+    (forall s : N, snd (JsonPlus.reader_dt segs fin dt) <> Panic s) /\
+    snd (JsonPlus.reader_dt segs fin dt) <> Err JsonPlus.E_FUEL.
+Proof. exact Verif.Proofs.JsonPlusTotal.jsonplus_total. Qed.
+
+(* JSON+ comment stripping of a whole document *)
+Theorem c07_jsonplus_strip_total :
+    forall d : bytes,
+    (forall s : N, snd (JsonPlus.strip d) <> Panic s) /\ snd (JsonPlus.strip d) <> Err JsonPlus.E_FUEL.
+Proof. exact Verif.Proofs.JsonPlusTotal.strip_total. Qed.
+
+(* JOSE base64URLDecode (padding arithmetic) *)
+Theorem c07_jose_b64_total :
+    forall (s : bytes) (p : N), Jose.b64url_decode_r s <> Panic p.
+Proof. exact Verif.Proofs.JoseFixed.b64url_decode_r_total. Qed.
+
+(* JOSE CBC unpadBuffer index arithmetic *)
+Theorem c07_jose_unpad_total :
+    forall (b : bytes) (bs s : N), Jose.unpad_buffer b bs <> Panic s.
+Proof. exact Verif.Proofs.JoseCipher.unpad_total. Qed.
+
+(* JOSE AES key unwrap of a peer-supplied key of every length, for every block function *)
+Theorem c07_jose_keyunwrap_total :
+    forall (D : bytes -> bytes) (ct : bytes) (s : N), Jose.key_unwrap D ct <> Panic s.
+Proof. exact Verif.Proofs.JoseWrap.key_unwrap_total. Qed.
+
+(* JOSE compact JWS split and decode *)
+Theorem c07_jose_jws_compact_parse_total :
+    forall (s : bytes) (j : bool) (p : N), Jose.parse_jws_compact s j <> Panic p.
+Proof. exact Verif.Proofs.JoseFixed.parse_jws_compact_total. Qed.
+
+(* JOSE compact JWE split and decode *)
+Theorem c07_jose_jwe_compact_parse_total :
+    forall (s : bytes) (h p : N), Jose.parse_jwe_compact s h <> Panic p.
+Proof. exact Verif.Proofs.JoseFixed.parse_jwe_compact_total. Qed.
+
+(* LINEAR TIME IS REFUTED for AMF0 (known finding amf0-quadratic-nesting): for every slope k there is a well-formed byte string whose decoding cost -- method invocations, counting the Size() walk of the whole subtree that objectBase.unmarshal repeats after every decoded child -- exceeds k times its length (witness family 03 (00 01 61 03)^d (00 00 09)^(d+1), cost (d+1)^2 on 7d+4 bytes) *)
+Theorem c07_amf0_cost_refuted :
+    forall k : N, exists bs : bytes, wf_bytes bs /\ (Amf0Cost.cost_amf0 bs > k * lenN bs)%N.
+Proof. exact Verif.Proofs.Amf0Cost.amf0_cost_quadratic_refuted. Qed.
+
+(* Assumptions of EVERY theorem above, in one traversal: the tuple below mentions each of them, so the set
+   printed is the union of their assumptions (one `Print Assumptions` per theorem costs 0.4 s each -- 20 s per
+   check run for this file -- and prints the same line 60 times). *)
+Definition c07_all_theorems :=
+  (c07_amf0_marker_String_total,
+  (c07_amf0_Discovery_total,
+  (c07_rtmp_UserControl_Size_total,
+  (c07_rtmp_SetChunkSize_Size_total,
+  (c07_rtmp_WindowAcknowledgementSize_Size_total,
+  (c07_rtmp_SetPeerBandwidth_Size_total,
+  (c07_flv_TagType_String_total,
+  (c07_flv_AudioChannels_String_total,
+  (c07_flv_AudioSampleBits_String_total,
+  (c07_flv_AudioSamplingRate_String_total,
+  (c07_flv_AudioCodec_String_total,
+  (c07_flv_VideoFrameType_String_total,
+  (c07_flv_VideoCodec_String_total,
+  (c07_flv_VideoFrameTrait_String_total,
+  (c07_flv_AudioSamplingRate_ToHz_total,
+  (c07_flv_AudioSamplingRate_OpusToHz_total,
+  (c07_flv_AudioSamplingRate_From_total,
+  (c07_flv_AudioSamplingRate_OpusFrom_total,
+  (c07_flv_AudioChannels_From_total,
+  (c07_aac_ObjectType_String_total,
+  (c07_aac_ObjectType_ToProfile_total,
+  (c07_aac_Profile_String_total,
+  (c07_aac_Profile_ToObjectType_total,
+  (c07_aac_SampleRateIndex_String_total,
+  (c07_aac_SampleRateIndex_ToHz_total,
+  (c07_aac_Channels_String_total,
+  (c07_avc_NALUType_String_total,
+  (c07_avc_AVCProfile_String_total,
+  (c07_avc_AVCLevel_String_total,
+  (c07_websocket_isControl_total,
+  (c07_websocket_isData_total,
+  (c07_websocket_isValidReceivedCloseCode_total,
+  (c07_websocket_isValidCompressionLevel_total,
+  (c07_amf0_Discovery_markers,
+  (c07_rtmp_UserControl_Size_values,
+  (c07_index_panics_iff,
+  (c07_index_in_range,
+  (c07_wrap_unsigned,
+  (c07_wrap_signed,
+  (c07_amf0_dec_total,
+  (c07_rtmp_read_total,
+  (c07_rtmp_decode_message_total,
+  (c07_rtmp_unmarshal_total,
+  (c07_flv_demux_total,
+  (c07_flv_audio_dec_total,
+  (c07_flv_video_dec_total,
+  (c07_aac_adts_dec_total,
+  (c07_aac_adts_stream_total,
+  (c07_aac_asc_dec_total,
+  (c07_avc_record_dec_total,
+  (c07_avc_sample_dec_total,
+  (c07_avc_nalu_dec_total,
+  (c07_jsonplus_total,
+  (c07_jsonplus_strip_total,
+  (c07_jose_b64_total,
+  (c07_jose_unpad_total,
+  (c07_jose_keyunwrap_total,
+  (c07_jose_jws_compact_parse_total,
+  (c07_jose_jwe_compact_parse_total,
+  c07_amf0_cost_refuted))))))))))))))))))))))))))))))))))))))))))))))))))))))))))).
+Print Assumptions c07_all_theorems.
